@@ -157,37 +157,6 @@ harness!(c04_uf_merge_array2, 7, {
     cov!(!ch, "unchanged");
 });
 
-// the same law with a concrete shape (receiver edge and delta keys concrete, delta parents symbolic):
-// cheap enough to stay decidable when an implementation of `merge` allocates (seeded S-C04)
-fn merge2_shape(r: Option<(u8, u8)>, k: (u8, u8)) {
-    let mut x = Uf::default();
-    let mut mx = MPart::discrete();
-    if let Some((a, b)) = r {
-        x.union(a, b);
-        mx.link(a as usize, b as usize);
-    }
-    let (b, d) = (below(D as u8), below(D as u8));
-    let delta = UnionFind::<ArrayMap<u8, Cell<u8>, 2>>::new(ArrayMap { keys: [k.0, k.1], vals: [Cell::new(b), Cell::new(d)] });
-    let ch = x.merge(delta);
-    let mut want = mx;
-    want.link(k.0 as usize, b as usize);
-    want.link(k.1 as usize, d as usize);
-    assert!(x.model().eqv(&want), "C04 union-find merge(two-entry delta) != join of partitions");
-    assert!(ch == !want.eqv(&mx), "C02 union-find merge(two-entry delta) flag wrong");
-    let (p, q) = (below(D as u8), below(D as u8));
-    assert!(x.same(p, q).into_reveal() == want.same(p as usize, q as usize), "C04 same() after merge != join of partitions");
-    cov!(ch, "changed");
-    cov!(want.same(k.0 as usize, k.1 as usize) && !mx.same(k.0 as usize, k.1 as usize) || r.is_some(), "delta keys joined by the merge");
-}
-//@ prop=C02,C04 heavy=1
-harness!(c04_uf_merge2_r01_k01, 7, { merge2_shape(Some((0, 1)), (0, 1)); });
-//@ prop=C02,C04 heavy=1
-harness!(c04_uf_merge2_r01_k12, 7, { merge2_shape(Some((0, 1)), (1, 2)); });
-//@ prop=C02,C04 heavy=1
-harness!(c04_uf_merge2_r01_k23, 7, { merge2_shape(Some((0, 1)), (2, 3)); });
-//@ prop=C02,C04 heavy=1
-harness!(c04_uf_merge2_none_k01, 7, { merge2_shape(None, (0, 1)); });
-
 // C01/C02/C03 for union-find values reachable through the API (2 symbolic unions each)
 //@ heavy=1 tier=thorough
 harness!(c01i_uf, 6, { laws::c01i::<Uf>(0); });
